@@ -30,6 +30,9 @@ Vals == {<<>>, <<97>>, <<32, 97, 32>>, <<61>>, <<47, 62>>}
 Good == { [lead |-> <<32>>, key |-> k, s1 |-> a, s2 |-> <<>>, q |-> q, val |-> v] :
           k \in Keys, a \in {<<>>, <<32>>}, q \in {34, 39}, v \in {<<>>, <<32, 97, 32>>, <<61>>} }
        \cup { [lead |-> <<32, 9>>, key |-> <<97>>, s1 |-> <<32>>, s2 |-> <<9>>, q |-> 34, val |-> <<47, 62>>] }
+       \* the attribute has_nil looks for (either true literal)
+       \cup { [lead |-> <<32>>, key |-> NIL_KEY, s1 |-> <<>>, s2 |-> <<>>, q |-> 39, val |-> <<49>>],
+              [lead |-> <<32>>, key |-> NIL_KEY, s1 |-> <<32>>, s2 |-> <<>>, q |-> 34, val |-> <<116, 114, 117, 101>>] }
 GoodTxt(g) == g.lead \o g.key \o g.s1 \o <<61>> \o g.s2 \o <<g.q>> \o g.val \o <<g.q>>
 GoodItem(g, base) ==
     LET klo == base + Len(g.lead)
@@ -150,8 +153,14 @@ Inv_Dups ==
 \* constructed lists: exactly the constructed items
 Inv_Lists == Mode = "lists" => Items = expect
 
+\* the consumers agree with the items: has_nil on constructed lists is decided by construction
+GetNames == << <<97>>, <<97, 98>>, NIL_KEY, <<98, 98>> >>
+Inv_HasNil == Mode = "lists" =>
+    (HasNil(s, Items) <=> \E i \in 1..Len(expect) : expect[i].k = "Attr" /\ Slice(s, expect[i].klo, expect[i].khi) = NIL_KEY)
 ItemRow(it) == <<it.k, it.form, it.klo, it.khi, it.vlo, it.vhi, it.e, it.p1, it.p2>>
 Inv_Emit ==
     Emit => PrintT(<<"REPLAY", ToJson([s |-> s, pos |-> pos, html |-> IF html THEN 1 ELSE 0, chk |-> IF chk THEN 1 ELSE 0,
-                                       items |-> [i \in 1..Len(Items) |-> ItemRow(Items[i])]])>>)
+                                       items |-> [i \in 1..Len(Items) |-> ItemRow(Items[i])],
+                                       nil |-> IF HasNil(s, Items) THEN 1 ELSE 0,
+                                       tga |-> [i \in 1..Len(GetNames) |-> TryGet(s, pos, GetNames[i])]])>>)
 =============================================================================
